@@ -64,18 +64,31 @@ Section Facts.
   Variable e_service : E -> N -> N -> E * bytes * outcome unit.
   Variable e_nst : E -> N -> option N.
 
-  (* ---- the engine facts the lifecycle theorems rely on ---- *)
-  Hypothesis H_user : forall e now u, fact_user (e_tag e) (e_tag (e_user e now u)) = true.
-  Hypothesis H_disc : forall e now d, fact_user (e_tag e) (e_tag (e_disc e now d)) = true.
-  Hypothesis H_reset : forall e now, fact_user (e_tag e) (e_tag (e_reset e now)) = true.
-  Hypothesis H_opened : forall e now dl,
+  (* ---- an invariant of the engine states (what "reachable / well-formed" means for this engine) that every entry
+     point preserves, and the clock values at which the engine may be serviced ---- *)
+  Variable I : E -> Prop.
+  Variable T : N -> Prop.
+  Hypothesis I_user : forall e now u, I e -> I (e_user e now u).
+  Hypothesis I_disc : forall e now d, I e -> I (e_disc e now d).
+  Hypothesis I_reset : forall e now, I e -> I (e_reset e now).
+  Hypothesis I_opened : forall e now dl, I e -> I (fst (e_opened e now dl)).
+  Hypothesis I_closed : forall e now, I e -> I (fst (e_closed e now)).
+  Hypothesis I_data : forall e now b, I e -> I (fst (fst (e_data e now b))).
+  Hypothesis I_wc : forall e now, I e -> I (fst (e_wc e now)).
+  Hypothesis I_service : forall e now f, I e -> T now -> I (fst (fst (e_service e now f))).
+
+  (* ---- the engine facts the lifecycle theorems rely on, required of the states satisfying the invariant ---- *)
+  Hypothesis H_user : forall e now u, I e -> fact_user (e_tag e) (e_tag (e_user e now u)) = true.
+  Hypothesis H_disc : forall e now d, I e -> fact_user (e_tag e) (e_tag (e_disc e now d)) = true.
+  Hypothesis H_reset : forall e now, I e -> fact_user (e_tag e) (e_tag (e_reset e now)) = true.
+  Hypothesis H_opened : forall e now dl, I e ->
     fact_opened (e_tag e) (is_ok (snd (e_opened e now dl))) (e_tag (fst (e_opened e now dl))) = true.
-  Hypothesis H_closed : forall e now,
+  Hypothesis H_closed : forall e now, I e ->
     fact_closed (e_tag e) (is_ok (snd (e_closed e now))) (e_tag (fst (e_closed e now))) = true.
-  Hypothesis H_data : forall e now b,
+  Hypothesis H_data : forall e now b, I e ->
     fact_data (e_tag e) (snd (fst (e_data e now b))) (e_tag (fst (fst (e_data e now b)))) = true.
-  Hypothesis H_wc : forall e now, fact_other (e_tag e) (e_tag (fst (e_wc e now))) = true.
-  Hypothesis H_service : forall e now f, fact_other (e_tag e) (e_tag (fst (fst (e_service e now f)))) = true.
+  Hypothesis H_wc : forall e now, I e -> fact_other (e_tag e) (e_tag (fst (e_wc e now))) = true.
+  Hypothesis H_service : forall e now f, I e -> T now -> fact_other (e_tag e) (e_tag (fst (fst (e_service e now f)))) = true.
 
   Notation st := (Impl.st E).
   Notation transition := (Impl.transition E e_opened e_closed).
@@ -98,7 +111,7 @@ Section Facts.
     end.
 
   Definition cinv (c : st) (log : list cev) : Prop :=
-    tagok c /\ exists ph, gphase_of log = Some ph /\ link c ph.
+    I (c_eng c) /\ tagok c /\ exists ph, gphase_of log = Some ph /\ link c ph.
 
   Lemma fact_user_inv tb ta :
     fact_user tb ta = true ->
@@ -124,13 +137,13 @@ Section Facts.
   Qed.
 
   Lemma cinv_engine_step c log e' :
-    cinv c log ->
+    cinv c log -> I e' ->
     (tag c = TDisconnected -> e_tag e' = TDisconnected) ->
     (tag c <> TDisconnected -> e_tag e' <> TDisconnected) ->
     (tag c <> TPendingConnack -> e_tag e' <> TPendingConnack) ->
     cinv (set_eng c e') log.
   Proof.
-    intros [[T1 T2] (ph & Hp & Hl)] A B C. split.
+    intros (HI & [T1 T2] & (ph & Hp & Hl)) Ie A B C. split; [exact Ie|]. split.
     - split; cbn; intros Hc; unfold tag in *; cbn.
       + apply B, T1, Hc.
       + apply A, T2, Hc.
@@ -147,21 +160,21 @@ Section Facts.
 
   Lemma cinv_handle_op c log now o : cinv c log -> cinv (handle_op c now o) log.
   Proof.
-    intros H. destruct o as [u| |d| |]; cbn.
-    - destruct (fact_user_inv _ _ (H_user (c_eng c) now u)) as (A & B & C).
+    intros H. pose proof (proj1 H) as HI. destruct o as [u| |d| |]; cbn.
+    - destruct (fact_user_inv _ _ (H_user (c_eng c) now u HI)) as (A & B & C).
       apply cinv_engine_step; auto.
     - eapply cinv_same; [| | |exact H]; reflexivity.
     - assert (Hs : cinv (match d with Some pkt => set_eng c (e_disc (c_eng c) now pkt) | None => c end) log).
       { destruct d as [pkt|]; auto.
-        destruct (fact_user_inv _ _ (H_disc (c_eng c) now pkt)) as (A & B & C).
+        destruct (fact_user_inv _ _ (H_disc (c_eng c) now pkt HI)) as (A & B & C).
         apply cinv_engine_step; auto. }
       set (c1 := match d with Some pkt => set_eng c (e_disc (c_eng c) now pkt) | None => c end) in *.
       set (c2 := set_stop c1 _).
       assert (H2 : cinv c2 log) by (eapply cinv_same; [| | |exact Hs]; reflexivity).
       pose proof (cinv_apply_error c2 log EUserInitiatedDisconnect H2) as H3.
       eapply cinv_same; [| | |exact H3]; reflexivity.
-    - destruct (fact_user_inv _ _ (H_reset (c_eng c) now)) as (A & B & C).
-      pose proof (cinv_engine_step c log (e_reset (c_eng c) now) H A B C) as H1.
+    - destruct (fact_user_inv _ _ (H_reset (c_eng c) now HI)) as (A & B & C).
+      pose proof (cinv_engine_step c log (e_reset (c_eng c) now) H (I_reset _ now HI) A B C) as H1.
       eapply cinv_same; [| | |exact H1]; reflexivity.
     - exact H.
   Qed.
@@ -171,7 +184,7 @@ Section Facts.
     cinv c log -> c_stop (handle_op c now (OpStop d)) = SDisc ->
     c_cur (handle_op c now (OpStop d)) = CConnected /\ tag (handle_op c now (OpStop d)) = TConnected.
   Proof.
-    intros Hi Hs. pose proof (cinv_handle_op c log now (OpStop d) Hi) as [[T1 T2] _].
+    intros Hi Hs. pose proof (cinv_handle_op c log now (OpStop d) Hi) as (_ & [T1 T2] & _).
     assert (Ht : tag (handle_op c now (OpStop d)) = TConnected).
     { revert Hs. unfold tag. cbn [Impl.handle_op].
       set (c1 := match d with Some pkt => set_eng c (e_disc (c_eng c) now pkt) | None => c end).
@@ -217,7 +230,7 @@ Section Facts.
   Lemma transition_ok c log now t :
     cinv c log -> legal (c_cur c) t = true -> transition_good c log now t.
   Proof.
-    intros [[T1 T2] (ph & Hp & Hl)] Hleg.
+    intros (HI & [T1 T2] & (ph & Hp & Hl)) Hleg.
     unfold transition_good, Impl.transition.
     destruct (c_cur c) eqn:Hcur; destruct t; cbn in Hleg; try discriminate; cbn [cstate_eqb];
       unfold effective_target; cbn [cstate_eqb andb negb]; unfold link in Hl; rewrite Hcur in Hl.
@@ -241,8 +254,8 @@ Section Facts.
       destruct (c_start c) as [t0|]; [|split; reflexivity].
       destruct (add_saturating 981 t0 (c_timeout c)) as [dl|k|site] eqn:Hadd; [| |split; reflexivity].
       2:{ unfold add_saturating, add_instant in Hadd. repeat match type of Hadd with context [if ?b then _ else _] => destruct b end; discriminate. }
-      pose proof (H_opened (c_eng c) now dl) as Ho.
-      destruct (e_opened (c_eng c) now dl) as [e' r]. cbn in Ho.
+      pose proof (H_opened (c_eng c) now dl HI) as Ho. pose proof (I_opened (c_eng c) now dl HI) as Io.
+      destruct (e_opened (c_eng c) now dl) as [e' r]. cbn in Ho, Io.
       assert (Htd : e_tag (c_eng c) = TDisconnected) by (apply T2; congruence).
       destruct (fact_opened_inv _ _ _ Ho Htd) as [Hok Hta].
       apply is_ok_true in Hok. destruct Hok as [[] ->]. cbn.
@@ -258,9 +271,9 @@ Section Facts.
           try (intros _; apply T2; congruence); eexists; split; reflexivity.
     - (* Connected -> Stopped (maybe Shutdown) *)
       assert (Hnd : e_tag (c_eng c) <> TDisconnected) by (apply T1; reflexivity).
-      pose proof (H_closed (c_eng c) now) as Hc.
+      pose proof (H_closed (c_eng c) now HI) as Hc. pose proof (I_closed (c_eng c) now HI) as Ic.
       destruct (cstate_eqb (c_des c) CShutdown) eqn:Hd; cbn [cstate_eqb andb negb];
-        destruct (e_closed (c_eng c) now) as [e' r]; cbn in Hc;
+        destruct (e_closed (c_eng c) now) as [e' r]; cbn in Hc, Ic;
         destruct (fact_closed_inv _ _ _ Hc Hnd) as [Hok Hta];
         apply is_ok_true in Hok; destruct Hok as [[] ->]; cbn;
         destruct (c_connack c) as [[|]|]; cbn; unfold cinv, tagok, link, tag; cbn;
@@ -268,10 +281,10 @@ Section Facts.
         repeat split; auto; try congruence; eexists; split; reflexivity.
     - (* Connected -> PendingReconnect (short-circuits) *)
       assert (Hnd : e_tag (c_eng c) <> TDisconnected) by (apply T1; reflexivity).
-      pose proof (H_closed (c_eng c) now) as Hc.
+      pose proof (H_closed (c_eng c) now HI) as Hc. pose proof (I_closed (c_eng c) now HI) as Ic.
       destruct (cstate_eqb (c_des c) CConnected) eqn:Hd1; cbn [negb andb cstate_eqb];
         [| destruct (cstate_eqb (c_des c) CShutdown) eqn:Hd; cbn [cstate_eqb andb negb] ];
-        destruct (e_closed (c_eng c) now) as [e' r]; cbn in Hc;
+        destruct (e_closed (c_eng c) now) as [e' r]; cbn in Hc, Ic;
         destruct (fact_closed_inv _ _ _ Hc Hnd) as [Hok Hta];
         apply is_ok_true in Hok; destruct Hok as [[] ->]; cbn;
         destruct (c_connack c) as [[|]|]; cbn; unfold cinv, tagok, link, tag; cbn;
@@ -347,7 +360,7 @@ Section Facts.
       + (* publish *)
         cbn [dispatch1 fst snd]. rewrite app_assoc.
         apply (IH c (log ++ [EvPublish]) now aw); auto.
-        destruct Hinv as [T (ph & Hp & Hl)]. split; auto. exists ph. split; auto.
+        destruct Hinv as (HI & Tg & (ph & Hp & Hl)). split; [exact HI|]. split; auto. exists ph. split; auto.
         rewrite gphase_of_app, Hp. reflexivity.
       + (* disconnect *)
         cbn [dispatch1 fst snd].
@@ -357,7 +370,7 @@ Section Facts.
         assert (Hz : count_connacks pes = 0%nat) by lia.
         assert (Hawt : aw = true) by (destruct aw; auto; specialize (Haw eq_refl); lia).
         assert (Hnup : c_connack c <> Some true) by (intros Hx; apply Hup in Hx; congruence).
-        destruct Hinv as [[T1 T2] (ph & Hp & Hl)].
+        destruct Hinv as (HI & [T1 T2] & (ph & Hp & Hl)).
         unfold link in Hl. rewrite Hcur in Hl.
         assert (Hph : ph = GAttempting) by (destruct (c_connack c) as [[|]|]; auto; congruence).
         subst ph.
@@ -365,12 +378,12 @@ Section Facts.
         * rewrite app_assoc.
           match goal with |- context [dispatch ?x now pes] => set (c1 := x) end.
           apply (IH c1 (log ++ [EvSuccess]) now false); auto; try lia.
-          split; [split; cbn; auto|]. exists GUp. split.
+          split; [exact HI|]. split; [split; cbn; auto|]. exists GUp. split.
           -- rewrite gphase_of_app, Hp. reflexivity.
           -- unfold link. cbn. rewrite Hcur. split; auto; try (apply Hsucc; reflexivity).
         * match goal with |- context [dispatch ?x now pes] => set (c1 := x) end.
           apply (IH c1 log now false); auto; try lia; try (cbn; congruence).
-          split; [split; cbn; auto|]. exists GAttempting. split; auto.
+          split; [exact HI|]. split; [split; cbn; auto|]. exists GAttempting. split; auto.
           unfold link. cbn. rewrite Hcur. reflexivity.
   Qed.
 
@@ -398,8 +411,9 @@ Section Facts.
     end.
   Proof.
     intros Hcur Hinv. unfold Impl.handle_incoming_bytes.
-    pose proof (H_data (c_eng c) now data) as Hd.
-    destruct (e_data (c_eng c) now data) as [[e' pes] r]. cbn in Hd.
+    pose proof (proj1 Hinv) as HI.
+    pose proof (H_data (c_eng c) now data HI) as Hd. pose proof (I_data (c_eng c) now data HI) as Id.
+    destruct (e_data (c_eng c) now data) as [[e' pes] r]. cbn in Hd, Id.
     destruct (fact_data_inv _ _ _ Hd) as (Ho & Hle & Hnp & Hsu).
     destruct (fact_other_inv _ _ Ho) as (B & C).
     pose proof (dispatch_fields now pes (set_eng c e')) as Hf. cbn in Hf.
@@ -409,12 +423,12 @@ Section Facts.
     pose proof (cinv_dispatch pes (set_eng c e') log now
                   (etag_eqb (e_tag (c_eng c)) TPendingConnack)) as Hx.
     rewrite Hdisp in Hx. cbn in Hx. apply Hx; auto.
-    - destruct Hinv as [[T1 T2] (ph & Hp & Hl)]. split.
+    - destruct Hinv as (_ & [T1 T2] & (ph & Hp & Hl)). split; [exact Id|]. split.
       + split; cbn; intros Hc; unfold tag; cbn; [apply B, T1, Hc | congruence].
       + exists ph. split; auto. unfold link in *. cbn. rewrite Hcur in *.
         destruct (c_connack c) as [[|]|]; auto. destruct Hl as [Hl1 Hl2]. split; auto.
     - intros Hf. apply Hnp. intros Ht. rewrite Ht in Hf. cbn in Hf. discriminate.
-    - intros Hk. destruct Hinv as [_ (ph & Hp & Hl)]. unfold link in Hl. rewrite Hcur, Hk in Hl.
+    - intros Hk. destruct Hinv as (_ & _ & (ph & Hp & Hl)). unfold link in Hl. rewrite Hcur, Hk in Hl.
       destruct Hl as [_ Hl]. destruct (etag_eqb (e_tag (c_eng c)) TPendingConnack) eqn:Eq; auto.
       apply etag_eqb_eq in Eq. contradiction.
   Qed.
@@ -440,7 +454,7 @@ Section Facts.
     (d_status s = Running -> cinv (d_c s) (d_log s) /\ cur s <> CShutdown).
 
   Lemma cinv_gram c log : cinv c log -> gphase_of log <> None.
-  Proof. intros [_ (ph & Hp & _)]. congruence. Qed.
+  Proof. intros (_ & _ & (ph & Hp & _)). congruence. Qed.
 
   Lemma dinv_ext (s s' : dstate) :
     d_c s' = d_c s -> d_log s' = d_log s -> d_status s' = d_status s -> dinv s -> dinv s'.
@@ -573,19 +587,19 @@ Section Facts.
   Proof. intros H. eapply dinv_ext; [| | |exact H]; reflexivity. Qed.
 
   Lemma dinv_step_connected (s : dstate) now e :
-    dinv s -> d_status s = Running -> cur s = CConnected -> dinv (step_connected s now e).
+    T now -> dinv s -> d_status s = Running -> cur s = CConnected -> dinv (step_connected s now e).
   Proof.
-    intros Hi Hrun Hcur. pose proof Hi as (Hg & Hd & Hr). destruct (Hr Hrun) as [Hc Hn].
+    intros Tnow Hi Hrun Hcur. pose proof Hi as (Hg & Hd & Hr). destruct (Hr Hrun) as [Hc Hn].
     unfold Driver.step_connected.
     destruct (d_flush s).
     - (* flush pending *)
       destruct e; auto. destruct ok.
       + unfold Impl.handle_write_completion. cbn [d_c with_buf].
-        pose proof (H_wc (c_eng (d_c s)) now) as Hw.
-        destruct (e_wc (c_eng (d_c s)) now) as [e' r]. cbn in Hw.
+        pose proof (H_wc (c_eng (d_c s)) now (proj1 Hc)) as Hw. pose proof (I_wc (c_eng (d_c s)) now (proj1 Hc)) as Iw.
+        destruct (e_wc (c_eng (d_c s)) now) as [e' r]. cbn in Hw, Iw.
         destruct (fact_other_inv _ _ Hw) as (B & C).
         assert (Hc' : cinv (set_eng (d_c s) e') (d_log s)).
-        { destruct Hc as [[T1 T2] (ph & Hp & Hl)]. split.
+        { destruct Hc as (_ & [T1 T2] & (ph & Hp & Hl)). split; [exact Iw|]. split.
           - split; cbn; intros Hx; unfold tag; cbn; [apply B, T1, Hx | unfold cur in Hcur; congruence].
           - exists ph. split; auto. unfold link in *. cbn. unfold cur in Hcur. rewrite Hcur in *.
             destruct (c_connack (d_c s)) as [[|]|]; auto. destruct Hl as [Hl1 Hl2]. split; auto. }
@@ -616,11 +630,12 @@ Section Facts.
         destruct (next_service_time E e_nst (d_c s) now) as [t|]; [|apply dinv_after_event; auto].
         destruct (t <=? now); [|apply dinv_after_event; auto].
         unfold Impl.handle_service.
-        pose proof (H_service (c_eng (d_c s)) now (len (d_buf s))) as Hw.
-        destruct (e_service (c_eng (d_c s)) now (len (d_buf s))) as [[e' out] r]. cbn in Hw.
+        pose proof (H_service (c_eng (d_c s)) now (len (d_buf s)) (proj1 Hc) Tnow) as Hw.
+        pose proof (I_service (c_eng (d_c s)) now (len (d_buf s)) (proj1 Hc) Tnow) as Iw.
+        destruct (e_service (c_eng (d_c s)) now (len (d_buf s))) as [[e' out] r]. cbn in Hw, Iw.
         destruct (fact_other_inv _ _ Hw) as (B & C).
         assert (Hc' : cinv (set_eng (d_c s) e') (d_log s)).
-        { destruct Hc as [[T1 T2] (ph & Hp & Hl)]. split.
+        { destruct Hc as (_ & [T1 T2] & (ph & Hp & Hl)). split; [exact Iw|]. split.
           - split; cbn; intros Hx; unfold tag; cbn; [apply B, T1, Hx | unfold cur in Hcur; congruence].
           - exists ph. split; auto. unfold link in *. cbn. unfold cur in Hcur. rewrite Hcur in *.
             destruct (c_connack (d_c s)) as [[|]|]; auto. destruct Hl as [Hl1 Hl2]. split; auto. }
@@ -652,9 +667,9 @@ Section Facts.
     d_status (advance_pos E U D thr s e) = d_status s /\ d_flush (advance_pos E U D thr s e) = d_flush s.
   Proof. unfold advance_pos. destruct thr; cbn; auto. Qed.
 
-  Lemma dinv_dstep (s : dstate) now e : dinv s -> dinv (dstep s now e).
+  Lemma dinv_dstep (s : dstate) now e : T now -> dinv s -> dinv (dstep s now e).
   Proof.
-    intros Hi. unfold Driver.dstep. destruct (d_status s) eqn:Hst; auto.
+    intros Tnow Hi. unfold Driver.dstep. destruct (d_status s) eqn:Hst; auto.
     destruct (negb (in_order E U D thr s e)); auto.
     destruct (advance_pos_fields s e) as (A1 & A2 & A3 & A4).
     set (s0 := advance_pos E U D thr s e) in *.
@@ -676,13 +691,18 @@ Section Facts.
     - apply dinv_set_status_end; auto. destruct Hi0; auto.
   Qed.
 
-  Lemma dinv_drun h : forall (s : dstate), dinv s -> dinv (drun s h).
-  Proof. induction h as [|[now e] h IH]; intros s Hi; cbn; auto. apply IH, dinv_dstep, Hi. Qed.
+  Definition clock_ok (h : list (N * dev U D)) : Prop := Forall (fun x => T (fst x)) h.
 
-  Lemma dinv_init e0 bc timeout : e_tag e0 = TDisconnected -> dinv (dinit E e0 bc timeout).
+  Lemma dinv_drun h : forall (s : dstate), clock_ok h -> dinv s -> dinv (drun s h).
   Proof.
-    intros He. apply dinv_running; cbn; auto; [|discriminate].
-    split.
+    induction h as [|[now e] h IH]; intros s Hh Hi; cbn; auto. inversion Hh as [|? ? H1 H2]; subst.
+    apply IH; [exact H2|]. apply dinv_dstep; [exact H1|exact Hi].
+  Qed.
+
+  Lemma dinv_init e0 bc timeout : I e0 -> e_tag e0 = TDisconnected -> dinv (dinit E e0 bc timeout).
+  Proof.
+    intros Ie He. apply dinv_running; cbn; auto; [|discriminate].
+    split; [exact Ie|]. split.
     - split; cbn; [discriminate|]. intros _. exact He.
     - exists GIdle. split; reflexivity.
   Qed.
@@ -900,19 +920,44 @@ Section Facts.
 
   (* ---- C12_event_grammar, C12_loop_alive ---- *)
   Theorem event_grammar e0 bc timeout h :
-    e_tag e0 = TDisconnected -> grammar_ok (d_log (drun (dinit E e0 bc timeout) h)) = true.
+    I e0 -> e_tag e0 = TDisconnected -> clock_ok h -> grammar_ok (d_log (drun (dinit E e0 bc timeout) h)) = true.
   Proof.
-    intros He. destruct (dinv_drun h _ (dinv_init e0 bc timeout He)) as (Hg & _).
+    intros Ie He Hh. destruct (dinv_drun h _ Hh (dinv_init e0 bc timeout Ie He)) as (Hg & _).
     unfold grammar_ok. destruct (gphase_of _); congruence.
   Qed.
 
   Theorem loop_alive e0 bc timeout h :
-    e_tag e0 = TDisconnected -> d_status (drun (dinit E e0 bc timeout) h) <> Dead.
-  Proof. intros He. destruct (dinv_drun h _ (dinv_init e0 bc timeout He)) as (_ & Hd & _). exact Hd. Qed.
+    I e0 -> e_tag e0 = TDisconnected -> clock_ok h -> d_status (drun (dinit E e0 bc timeout) h) <> Dead.
+  Proof. intros Ie He Hh. destruct (dinv_drun h _ Hh (dinv_init e0 bc timeout Ie He)) as (_ & Hd & _). exact Hd. Qed.
 
 End Facts.
 
-(* ---- the engine facts as one predicate over an engine interface ---- *)
+(* ---- the engine facts as one predicate over an engine interface ----
+   [engine_facts_inv I T]: the engine states satisfying [I] (an invariant: every entry point preserves it; servicing
+   only at clock values satisfying [T]) obey the eight state-table facts.  [engine_facts] is the special case
+   I := T := everything. *)
+Definition engine_facts_inv (E U D : Type) (I : E -> Prop) (T : N -> Prop)
+    (e_tag : E -> etag) (e_user : E -> N -> U -> E) (e_disc : E -> N -> D -> E)
+    (e_reset : E -> N -> E) (e_opened : E -> N -> N -> E * outcome unit) (e_closed : E -> N -> E * outcome unit)
+    (e_data : E -> N -> bytes -> E * list pevent * outcome unit) (e_wc : E -> N -> E * outcome unit)
+    (e_service : E -> N -> N -> E * bytes * outcome unit) : Prop :=
+  ((forall e now u, I e -> I (e_user e now u)) /\
+   (forall e now d, I e -> I (e_disc e now d)) /\
+   (forall e now, I e -> I (e_reset e now)) /\
+   (forall e now dl, I e -> I (fst (e_opened e now dl))) /\
+   (forall e now, I e -> I (fst (e_closed e now))) /\
+   (forall e now b, I e -> I (fst (fst (e_data e now b)))) /\
+   (forall e now, I e -> I (fst (e_wc e now))) /\
+   (forall e now f, I e -> T now -> I (fst (fst (e_service e now f))))) /\
+  (forall e now u, I e -> fact_user (e_tag e) (e_tag (e_user e now u)) = true) /\
+  (forall e now d, I e -> fact_user (e_tag e) (e_tag (e_disc e now d)) = true) /\
+  (forall e now, I e -> fact_user (e_tag e) (e_tag (e_reset e now)) = true) /\
+  (forall e now dl, I e -> fact_opened (e_tag e) (is_ok (snd (e_opened e now dl))) (e_tag (fst (e_opened e now dl))) = true) /\
+  (forall e now, I e -> fact_closed (e_tag e) (is_ok (snd (e_closed e now))) (e_tag (fst (e_closed e now))) = true) /\
+  (forall e now b, I e -> fact_data (e_tag e) (snd (fst (e_data e now b))) (e_tag (fst (fst (e_data e now b)))) = true) /\
+  (forall e now, I e -> fact_other (e_tag e) (e_tag (fst (e_wc e now))) = true) /\
+  (forall e now f, I e -> T now -> fact_other (e_tag e) (e_tag (fst (fst (e_service e now f)))) = true).
+
 Definition engine_facts (E U D : Type) (e_tag : E -> etag) (e_user : E -> N -> U -> E) (e_disc : E -> N -> D -> E)
     (e_reset : E -> N -> E) (e_opened : E -> N -> N -> E * outcome unit) (e_closed : E -> N -> E * outcome unit)
     (e_data : E -> N -> bytes -> E * list pevent * outcome unit) (e_wc : E -> N -> E * outcome unit)
@@ -926,14 +971,140 @@ Definition engine_facts (E U D : Type) (e_tag : E -> etag) (e_user : E -> N -> U
   (forall e now, fact_other (e_tag e) (e_tag (fst (e_wc e now))) = true) /\
   (forall e now f, fact_other (e_tag e) (e_tag (fst (fst (e_service e now f)))) = true).
 
+Lemma engine_facts_as_inv E U D e_tag e_user e_disc e_reset e_opened e_closed e_data e_wc e_service :
+  engine_facts E U D e_tag e_user e_disc e_reset e_opened e_closed e_data e_wc e_service ->
+  engine_facts_inv E U D (fun _ => True) (fun _ => True) e_tag e_user e_disc e_reset e_opened e_closed e_data e_wc e_service.
+Proof.
+  intros (H1 & H2 & H3 & H4 & H5 & H6 & H7 & H8). split; [repeat split; auto|]. repeat split; intros; auto.
+Qed.
+
+Lemma clock_ok_true U D (h : list (N * dev U D)) : clock_ok U D (fun _ => True) h.
+Proof. unfold clock_ok. apply Forall_forall. intros; exact Logic.I. Qed.
+
+(* ---- event grammar / loop alive / stop / restart / close for REACHABLE states (every driver-event history whose
+   clock values are admissible), under the engine facts for an engine invariant ---- *)
+Section ReachInv.
+  Variable E U D : Type.
+  Variable I : E -> Prop.
+  Variable T : N -> Prop.
+  Variable e_tag : E -> etag.
+  Variable e_user : E -> N -> U -> E.
+  Variable e_disc : E -> N -> D -> E.
+  Variable e_reset : E -> N -> E.
+  Variable e_opened : E -> N -> N -> E * outcome unit.
+  Variable e_closed : E -> N -> E * outcome unit.
+  Variable e_data : E -> N -> bytes -> E * list pevent * outcome unit.
+  Variable e_wc : E -> N -> E * outcome unit.
+  Variable e_service : E -> N -> N -> E * bytes * outcome unit.
+  Variable e_nst : E -> N -> option N.
+  Hypothesis facts : engine_facts_inv E U D I T e_tag e_user e_disc e_reset e_opened e_closed e_data e_wc e_service.
+  Variable thr : bool.
+  Variable e0 : E.
+  Variable bc : Backoff.cfg.
+  Variable timeout : N.
+  Hypothesis e0_inv : I e0.
+  Hypothesis e0_disconnected : e_tag e0 = TDisconnected.
+
+  Definition reach (h : list (N * dev U D)) : dstate E :=
+    drun E U D e_tag e_user e_disc e_reset e_opened e_closed e_data e_wc e_service e_nst thr (dinit E e0 bc timeout) h.
+
+  Lemma reach_dinv_inv h : clock_ok U D T h -> dinv E e_tag I (reach h).
+  Proof.
+    intros Hh. destruct facts as ((P1 & P2 & P3 & P4 & P5 & P6 & P7 & P8) & H1 & H2 & H3 & H4 & H5 & H6 & H7 & H8).
+    unfold reach. eapply dinv_drun with (T := T); eauto. apply dinv_init; assumption.
+  Qed.
+
+  Theorem event_grammar_inv h : clock_ok U D T h -> grammar_ok (d_log (reach h)) = true.
+  Proof.
+    intros Hh. destruct (reach_dinv_inv h Hh) as (Hg & _).
+    unfold grammar_ok. destruct (gphase_of _); congruence.
+  Qed.
+
+  Theorem loop_alive_inv h : clock_ok U D T h -> d_status (reach h) <> Dead.
+  Proof. intros Hh. destruct (reach_dinv_inv h Hh) as (_ & Hd & _). exact Hd. Qed.
+
+  Theorem stop_stops_reach_inv h now :
+    clock_ok U D T h ->
+    let s := reach h in
+    d_status s = Running -> c_des (d_c s) = CStopped -> (cur s <> CConnected \/ c_stop (d_c s) <> SDisc) ->
+    let s' := check E e_opened e_closed thr s now in
+    d_status s' = Running /\ cur s' = CStopped /\ c_des (d_c s') = CStopped /\
+    exists evs, d_log s' = d_log s ++ evs /\
+                count_stopped evs = (if cstate_eqb (cur s) CStopped then 0 else 1)%nat /\
+                existsb is_attempt_ev evs = false.
+  Proof.
+    intros Hh s Hrun Hd Hw s'.
+    destruct facts as ((P1 & P2 & P3 & P4 & P5 & P6 & P7 & P8) & H1 & H2 & H3 & H4 & H5 & H6 & H7 & H8).
+    destruct (check_stops E e_tag e_opened e_closed I P4 P5 H4 H5 thr s now (reach_dinv_inv h Hh) Hrun Hd Hw) as ((Q1 & Q2 & Q3 & _) & _ & X).
+    repeat split; auto.
+  Qed.
+
+  Theorem stop_waits_only_when_established_inv h now d :
+    clock_ok U D T h ->
+    let s := reach h in
+    d_status s = Running ->
+    let c' := handle_op E U D e_tag e_user e_disc e_reset (d_c s) now (OpStop d) in
+    c_stop c' = SDisc -> c_cur c' = CConnected /\ e_tag (c_eng c') = TConnected.
+  Proof.
+    intros Hh s Hrun c' Hs.
+    destruct facts as ((P1 & P2 & P3 & P4 & P5 & P6 & P7 & P8) & H1 & H2 & H3 & H4 & H5 & H6 & H7 & H8).
+    destruct (reach_dinv_inv h Hh) as (_ & _ & Hr). destruct (Hr Hrun) as [Hc _].
+    exact (stop_request_shape E U D e_tag e_user e_disc e_reset I P1 P2 P3 H1 H2 H3 (d_c s) (d_log s) now d Hc Hs).
+  Qed.
+
+  Theorem stop_stops_two_reach_inv h now now' d :
+    clock_ok U D T h ->
+    let s := reach h in
+    d_status s = Running -> d_flush s = false -> d_pos s = 0 ->
+    c_stop (handle_op E U D e_tag e_user e_disc e_reset (d_c s) now (OpStop d)) <> SDisc ->
+    let s2 := dstep E U D e_tag e_user e_disc e_reset e_opened e_closed e_data e_wc e_service e_nst thr
+                (dstep E U D e_tag e_user e_disc e_reset e_opened e_closed e_data e_wc e_service e_nst thr s now (DOp (OpStop d)))
+                now' DCheck in
+    d_status s2 = Running /\ cur s2 = CStopped /\ c_des (d_c s2) = CStopped /\
+    exists evs, d_log s2 = d_log s ++ evs /\
+                count_stopped evs = (if cstate_eqb (cur s) CStopped then 0 else 1)%nat /\
+                existsb is_attempt_ev evs = false.
+  Proof.
+    intros Hh s Hrun Hfl Hpos Hnd s2.
+    destruct facts as ((P1 & P2 & P3 & P4 & P5 & P6 & P7 & P8) & H1 & H2 & H3 & H4 & H5 & H6 & H7 & H8).
+    destruct (stop_stops_two E U D e_tag e_user e_disc e_reset e_opened e_closed e_data e_wc e_service e_nst I T
+                P1 P2 P3 P4 P5 P6 P7 P8 H1 H2 H3 H4 H5 H6 H7 H8 thr s now now' d (reach_dinv_inv h Hh) Hrun Hfl Hpos Hnd) as ((Q1 & Q2 & Q3 & _) & X).
+    repeat split; auto.
+  Qed.
+
+  Theorem restartable_reach_inv h now :
+    let s := reach h in
+    d_status s = Running -> cur s = CStopped -> c_des (d_c s) = CConnected ->
+    let s' := check E e_opened e_closed thr s now in
+    cur s' = CConnecting /\ d_log s' = d_log s ++ [EvAttempt] /\ d_status s' <> Dead.
+  Proof. intros s Hrun Hc Hd s'. apply restart_check; auto. Qed.
+
+  Theorem close_terminal_reach_inv h now k :
+    clock_ok U D T h ->
+    let s := reach h in
+    d_status s = Running -> c_des (d_c s) = CShutdown -> (cur s <> CConnected \/ c_stop (d_c s) <> SDisc) ->
+    let s' := check E e_opened e_closed thr s now in
+    d_status s' = Exited /\
+    existsb is_attempt_ev (skipn (length (d_log s)) (d_log s')) = false /\
+    drun E U D e_tag e_user e_disc e_reset e_opened e_closed e_data e_wc e_service e_nst thr s' k = s'.
+  Proof.
+    intros Hh s Hrun Hd Hw s'.
+    destruct facts as ((P1 & P2 & P3 & P4 & P5 & P6 & P7 & P8) & H1 & H2 & H3 & H4 & H5 & H6 & H7 & H8).
+    destruct (close_check E e_tag e_opened e_closed I P4 P5 H4 H5 thr s now (reach_dinv_inv h Hh) Hrun Hd Hw) as [A B].
+    repeat split; auto. apply exited_terminal_run. unfold s'. rewrite A. discriminate.
+  Qed.
+End ReachInv.
+
+(* ---- the special case without an invariant: the statements as they were before the generalisation ---- *)
 Theorem event_grammar_thm E U D e_tag e_user e_disc e_reset e_opened e_closed e_data e_wc e_service e_nst :
   engine_facts E U D e_tag e_user e_disc e_reset e_opened e_closed e_data e_wc e_service ->
   forall thr e0 bc timeout h, e_tag e0 = TDisconnected ->
   grammar_ok (d_log (drun E U D e_tag e_user e_disc e_reset e_opened e_closed e_data e_wc e_service e_nst thr
                           (dinit E e0 bc timeout) h)) = true.
 Proof.
-  intros (H1 & H2 & H3 & H4 & H5 & H6 & H7 & H8) thr e0 bc timeout h He.
-  eapply event_grammar; eauto.
+  intros F thr e0 bc timeout h He.
+  exact (event_grammar_inv E U D _ _ e_tag e_user e_disc e_reset e_opened e_closed e_data e_wc e_service e_nst
+           (engine_facts_as_inv _ _ _ _ _ _ _ _ _ _ _ _ F) thr e0 bc timeout Logic.I He h (clock_ok_true U D h)).
 Qed.
 
 Theorem loop_alive_thm E U D e_tag e_user e_disc e_reset e_opened e_closed e_data e_wc e_service e_nst :
@@ -942,12 +1113,11 @@ Theorem loop_alive_thm E U D e_tag e_user e_disc e_reset e_opened e_closed e_dat
   d_status (drun E U D e_tag e_user e_disc e_reset e_opened e_closed e_data e_wc e_service e_nst thr
                  (dinit E e0 bc timeout) h) <> Dead.
 Proof.
-  intros (H1 & H2 & H3 & H4 & H5 & H6 & H7 & H8) thr e0 bc timeout h He.
-  eapply loop_alive; eauto.
+  intros F thr e0 bc timeout h He.
+  exact (loop_alive_inv E U D _ _ e_tag e_user e_disc e_reset e_opened e_closed e_data e_wc e_service e_nst
+           (engine_facts_as_inv _ _ _ _ _ _ _ _ _ _ _ _ F) thr e0 bc timeout Logic.I He h (clock_ok_true U D h)).
 Qed.
 
-
-(* ---- stop / restart / close for REACHABLE states (every driver-event history), under the engine facts ---- *)
 Section Reach.
   Variable E U D : Type.
   Variable e_tag : E -> etag.
@@ -967,14 +1137,8 @@ Section Reach.
   Variable timeout : N.
   Hypothesis e0_disconnected : e_tag e0 = TDisconnected.
 
-  Definition reach (h : list (N * dev U D)) : dstate E :=
-    drun E U D e_tag e_user e_disc e_reset e_opened e_closed e_data e_wc e_service e_nst thr (dinit E e0 bc timeout) h.
-
-  Lemma reach_dinv h : dinv E e_tag (reach h).
-  Proof.
-    destruct facts as (H1 & H2 & H3 & H4 & H5 & H6 & H7 & H8).
-    unfold reach. eapply dinv_drun; eauto. apply dinv_init. exact e0_disconnected.
-  Qed.
+  Notation reach := (reach E U D e_tag e_user e_disc e_reset e_opened e_closed e_data e_wc e_service e_nst thr e0 bc timeout).
+  Let facts' := engine_facts_as_inv _ _ _ _ _ _ _ _ _ _ _ _ facts.
 
   Theorem stop_stops_reach h now :
     let s := reach h in
@@ -985,9 +1149,8 @@ Section Reach.
                 count_stopped evs = (if cstate_eqb (cur s) CStopped then 0 else 1)%nat /\
                 existsb is_attempt_ev evs = false.
   Proof.
-    intros s Hrun Hd Hw s'. destruct facts as (H1 & H2 & H3 & H4 & H5 & H6 & H7 & H8).
-    destruct (check_stops E e_tag e_opened e_closed H4 H5 thr s now (reach_dinv h) Hrun Hd Hw) as ((Q1 & Q2 & Q3 & _) & _ & X).
-    repeat split; auto.
+    exact (stop_stops_reach_inv E U D _ _ e_tag e_user e_disc e_reset e_opened e_closed e_data e_wc e_service e_nst
+             facts' thr e0 bc timeout Logic.I e0_disconnected h now (clock_ok_true U D h)).
   Qed.
 
   Theorem stop_waits_only_when_established h now d :
@@ -996,9 +1159,8 @@ Section Reach.
     let c' := handle_op E U D e_tag e_user e_disc e_reset (d_c s) now (OpStop d) in
     c_stop c' = SDisc -> c_cur c' = CConnected /\ e_tag (c_eng c') = TConnected.
   Proof.
-    intros s Hrun c' Hs. destruct facts as (H1 & H2 & H3 & H4 & H5 & H6 & H7 & H8).
-    destruct (reach_dinv h) as (_ & _ & Hr). destruct (Hr Hrun) as [Hc _].
-    exact (stop_request_shape E U D e_tag e_user e_disc e_reset H1 H2 H3 (d_c s) (d_log s) now d Hc Hs).
+    exact (stop_waits_only_when_established_inv E U D _ _ e_tag e_user e_disc e_reset e_opened e_closed e_data e_wc e_service e_nst
+             facts' thr e0 bc timeout Logic.I e0_disconnected h now d (clock_ok_true U D h)).
   Qed.
 
   Theorem stop_stops_two_reach h now now' d :
@@ -1013,10 +1175,8 @@ Section Reach.
                 count_stopped evs = (if cstate_eqb (cur s) CStopped then 0 else 1)%nat /\
                 existsb is_attempt_ev evs = false.
   Proof.
-    intros s Hrun Hfl Hpos Hnd s2. destruct facts as (H1 & H2 & H3 & H4 & H5 & H6 & H7 & H8).
-    destruct (stop_stops_two E U D e_tag e_user e_disc e_reset e_opened e_closed e_data e_wc e_service e_nst
-                H1 H2 H3 H4 H5 H6 H7 H8 thr s now now' d (reach_dinv h) Hrun Hfl Hpos Hnd) as ((Q1 & Q2 & Q3 & _) & X).
-    repeat split; auto.
+    exact (stop_stops_two_reach_inv E U D _ _ e_tag e_user e_disc e_reset e_opened e_closed e_data e_wc e_service e_nst
+             facts' thr e0 bc timeout Logic.I e0_disconnected h now now' d (clock_ok_true U D h)).
   Qed.
 
   Theorem restartable_reach h now :
@@ -1034,8 +1194,7 @@ Section Reach.
     existsb is_attempt_ev (skipn (length (d_log s)) (d_log s')) = false /\
     drun E U D e_tag e_user e_disc e_reset e_opened e_closed e_data e_wc e_service e_nst thr s' k = s'.
   Proof.
-    intros s Hrun Hd Hw s'. destruct facts as (H1 & H2 & H3 & H4 & H5 & H6 & H7 & H8).
-    destruct (close_check E e_tag e_opened e_closed H4 H5 thr s now (reach_dinv h) Hrun Hd Hw) as [A B].
-    repeat split; auto. apply exited_terminal_run. unfold s'. rewrite A. discriminate.
+    exact (close_terminal_reach_inv E U D _ _ e_tag e_user e_disc e_reset e_opened e_closed e_data e_wc e_service e_nst
+             facts' thr e0 bc timeout Logic.I e0_disconnected h now k (clock_ok_true U D h)).
   Qed.
 End Reach.
